@@ -8,6 +8,7 @@ PID = "C12"
 LEVEL = "other"
 CRATES = ["rlib_bitset"]
 RELEASE = True
+NO_HIDDEN_STATE = ['rlib_bitset']   # driver rule STATE: these crates are plain data structures / functions
 ARMED = True
 ENGINES = ["E3", "E10"]
 TECHNIQUE = "term shapes of the point operations (word = x div W, bit = x mod W for the element width W, accepted shift/mask equivalents), loop-body transfer terms of the word-wise operators with the resolved word-level callee compared to the impl's trait, iterator-chain shape (full zip, no take/skip), coverage ranges of count/format, derive table"
